@@ -1,6 +1,7 @@
 #!/bin/bash
 # seedrun.sh <patch.diff> <PID> [PID...] : run the correspondence of the given properties against a patched copy of /repo (dev aid)
 P=$1; shift
-rm -rf /dev/shm/seed && mkdir -p /dev/shm/seed && cp -r /repo/vector_quantize_pytorch /dev/shm/seed/ && (cd /dev/shm/seed && git init -q . 2>/dev/null; patch -p1 -s < $P) || exit 1
-for pid in "$@"; do echo "== $pid"; VQ_REPO=/dev/shm/seed /verif/dev.sh $pid 2>&1 | grep -v auto_act | tail -${SEEDTAIL:-8}; done
-rm -rf /dev/shm/seed
+D=/dev/shm/seed_$$
+rm -rf $D && mkdir -p $D && cp -r /repo/vector_quantize_pytorch $D/ && (cd $D && patch -p1 -s < $P) || { rm -rf $D; exit 1; }
+for pid in "$@"; do echo "== $pid"; VQ_REPO=$D /verif/dev.sh $pid 2>&1 | grep -v auto_act | tail -${SEEDTAIL:-8}; done
+rm -rf $D
